@@ -110,7 +110,13 @@ async fn run(cases: &str, out: &str, workdir: &str) {
             } else if let Some(pid) = op.get("p") {
                 let pid = pid.as_str().unwrap();
                 let t = op["t"].as_u64().unwrap() as usize;
-                let tid = procs.get(pid).and_then(|p| p.canon.tids.get(t).cloned()).unwrap_or("zzzz".to_string());
+                // by schedule-independent name when the case gives one (runs with several worker threads), else by creation index
+                let tid = match op.get("tn") {
+                    Some(Value::String(n)) => procs.get(pid).and_then(|p| p.canon.by_name.get(n).and_then(|i| p.canon.tids.get(*i).cloned())),
+                    Some(_) => None,
+                    None => procs.get(pid).and_then(|p| p.canon.tids.get(t).cloned()),
+                }
+                .unwrap_or("zzzz".to_string());
                 let opts: Vars = op["o"].clone().into();
                 let a = op["a"].as_str().unwrap();
                 let ev: acts::Action = serde_json::from_value(serde_json::json!({"pid": pid, "tid": tid, "event": a, "options": {}})).unwrap();
